@@ -367,7 +367,8 @@ def deep_bfs(lim, tier):
 
 BIG_SCRIPT = r'''
 import sys, warnings
-sys.path.insert(0, "/repo")
+import os
+sys.path.insert(0, os.environ.get("MXMC_REPO") or "/repo")
 warnings.filterwarnings("ignore")
 import modelx as mx
 from modelx.core.errors import DeepReferenceError, FormulaError
